@@ -701,6 +701,7 @@ func (ex *Exec) appendOp(fr *Frame, st *State, s, t Val) Val {
 	n := sliceLen(t)
 	newLen := BVBin("bvadd", sliceLen(s), n)
 	fits := BVCmp("bvsle", newLen, sliceCap(s))
+	ex.splitHints = append(ex.splitHints, fits) // a natural case distinction for the solvers (in place / reallocated)
 	el := layoutOf(et)
 	id := st.newRef()
 	// in-place variant
